@@ -35,6 +35,30 @@ def with_replicas(h, r, reps=3):
     return History(ops, tags=set(h.tags) | {"replicas"} | ({"pipelined-replica"} if pipe else set()) | ({"mixed-signatures-block"} if mixed else set()))
 
 
+def gen_evaluations(g, k, tier):
+    """services are rated by many accounts with fractional scores (the score a service carries is an average over all its ratings: float
+    arithmetic over a record set kept in a Go map), in one block and over several, with ordinary traffic in between"""
+    hs = []
+    for _ in range(k):
+        r = _r.Random(g.getrandbits(64))
+        ops = [f"world audit={r.choice([0, 1])} price=1"]
+        raters = ["u0", "u1", "u2", "u3", "ca1", "ca2", "ca3", "ca4", "adm1", "adm2"]
+        r.shuffle(raters)
+        svc = r.choice(["c1:s1", "c2:s1", "c3:s1"])
+        scores = [r.choice(["0.1", "0.2", "0.3", "0.7", "1.1", "2.9", "3.3", "4.6", "4.99", "0.01"]) for _ in raters]
+        txs = [f"bvm {a} service EvaluateService s:{svc} s:fine f:{sc}" for a, sc in zip(raters, scores)]
+        cut = r.choice([len(txs), 4, 6])
+        ops.append("block " + " | ".join(txs[:cut]))
+        ops.append(f"q obj service {svc}")
+        if cut < len(txs):
+            ops.append("block ibtp ca1 c1:s1 c2:s1 1 req 0 - ok")
+            ops.append("block " + " | ".join(txs[cut:]))
+            ops.append(f"q obj service {svc}")
+        ops.append("block")
+        hs.append(History(ops, tags={"evaluations"}))
+    return hs
+
+
 def gen(rng, n, tier):
     hs = []
     kinds = [("mixed", lambda g, k: gen_exec.gen(g, k, tier, focus="mixed")),
@@ -42,7 +66,8 @@ def gen(rng, n, tier):
              ("c07", lambda g, k: gen_exec.gen_c07(g, k, tier)),
              ("c03", lambda g, k: gen_dispatch.gen_c03(g, k, tier)),
              ("c17", lambda g, k: gen_dispatch.gen_c17(g, k, tier)),
-             ("c08", lambda g, k: gen_dispatch.gen_c08(g, k, tier))]
+             ("c08", lambda g, k: gen_dispatch.gen_c08(g, k, tier)),
+             ("eval", lambda g, k: gen_evaluations(g, max(3, k // 5), tier))]
     per = max(1, n // len(kinds))
     for name, f in kinds:
         g = _r.Random(rng.getrandbits(64))
